@@ -28,6 +28,36 @@ type SV struct {
 	// multiplication) when the value is installed through mutator number Hist (see installers): object
 	// history must not matter.
 	Hist int `json:"hist,omitempty"`
+	// Home > 0: WHERE the object lives: 1 an element (not the first) of a []Scalar, 2 a field (not the first) of a larger struct,
+	// 3 an element of an array inside a struct. The value is the same; methods must not care about the address of their receiver
+	// (alignment, "start of an allocation", an address-keyed side table).
+	Home int `json:"home,omitempty"`
+}
+
+type scalarBox struct {
+	pad [3]uint64
+	S   secp256k1.Scalar
+	tag byte
+	A   [3]secp256k1.Scalar
+}
+
+// rehome moves the value of s (Go value copy) to another kind of memory location.
+func rehome(s *secp256k1.Scalar, home int) *secp256k1.Scalar {
+	switch home {
+	case 1:
+		arr := make([]secp256k1.Scalar, 4)
+		arr[2] = *s
+		return &arr[2]
+	case 2:
+		b := &scalarBox{}
+		b.S = *s
+		return &b.S
+	case 3:
+		b := &scalarBox{}
+		b.A[1] = *s
+		return &b.A[1]
+	}
+	return s
 }
 
 // Value is the canonical integer the SV denotes.
@@ -119,12 +149,15 @@ func provenance(v *big.Int, kind int) *secp256k1.Scalar {
 
 // Build constructs the scalar: canonical values through Decode, Montgomery patterns by writing limbs; with
 // Hist > 0 the value is installed into an object that was used before.
-func (s SV) Build() *secp256k1.Scalar {
+// Build constructs the scalar (see build0) and puts it where Home says.
+func (s SV) Build() *secp256k1.Scalar { return rehome(s.build0(), s.Home) }
+
+func (s SV) build0() *secp256k1.Scalar {
 	if s.Hist >= ProvBase {
 		return provenance(s.Value(), s.Hist-ProvBase)
 	}
 	if s.Hist > 0 {
-		fresh := SV{Hex: s.Hex, Mont: s.Mont}.Build()
+		fresh := SV{Hex: s.Hex, Mont: s.Mont}.build0()
 		used := secp256k1.NewScalar().SetUInt64(0xdeadbeef)
 		if s.Hist%2 == 0 || s.Hist == 11 {
 			// the object got its previous value from a decoder (whatever a decoder remembers about its input belongs to that value)
@@ -197,6 +230,9 @@ func SVGen() *rapid.Generator[SV] {
 		} else if gen.Chance(t, "prov", 1, 6) {
 			sv.Hist = ProvBase + gen.Pick(t, "provenance", NumProv)
 		}
+		if gen.Chance(t, "home", 1, 6) {
+			sv.Home = 1 + gen.Pick(t, "homeKind", 3)
+		}
 		return sv
 	})
 }
@@ -237,6 +273,9 @@ func TestReplay(t *testing.T) { gen.ReplayMain(t) }
 // below, so that a defect of this kind shows in every case and replays deterministically.
 func hostileCaller() {
 	pt.RecoveredPanics()
+	if msg := pt.ProbeNewAPI(8); msg != "" {
+		panic("a function the tree added to the API breaks an invariant: " + msg)
+	}
 	o := secp256k1.Order()
 	for i := range o {
 		o[i] = 0
